@@ -137,10 +137,10 @@ impl Unreal2Protocol {
                 .min(MAXIMUM_PLAYER_PREALLOCATION),
         );
 
-        // Fetch first players packet (with retries)
-        let mut players_data = self.get_request_data(PacketKind::Players);
-        // Players are non required so if we don't get any responses we continue to
-        // return
+        // Fetch first players packet (with retries), whether its failure matters is decided by
+        // the caller's gather setting
+        let mut players_data = Ok(self.get_request_data(PacketKind::Players)?);
+        // Further packets are optional, stop at the first one that is not received
         while let Ok(data) = players_data {
             let mut buffer = Buffer::<LittleEndian>::new(&data);
 
